@@ -1,15 +1,17 @@
 (* Properties/C15.v — Curry, Uncurry, Flip, Apply, Tuple only re-plumb arguments.
    Only statements, each closed by `exact`, with Print Assumptions beneath.
 
-   [run_<plugin> res fixed fuel s F args] (Plumb/Model.v) renames the parameters of s as
-   derive/params.go does, builds the closure nest the plugin prints, and evaluates
-   "derived wrapper applied to F and then to args" in a scoped environment; the answer is the
-   list of returned values and the log of applications of the original function
-   (level, argument vector).  [res j argss] is the j-th result of the original function.
-   The guard [guardb ps rs]: the parameter names of all levels *after the generator's own
-   renaming* are usable identifiers other than f, pairwise distinct and distinct from named
-   results; no result is called f.  All theorems are about the tree with the two C15 fixes
-   ([fixed]); FUEL + k is any sufficient amount of evaluator fuel. *)
+   [run_<plugin> res v fuel s F args] (Plumb/Model.v) names the parameters of s as version v of
+   derive/params.go does, picks the name of the wrapper's own parameter as v does, builds the
+   closure nest the plugin prints, and evaluates "derived wrapper applied to F and then to args"
+   in a scoped environment; the answer is the list of returned values and the log of applications
+   of the original function (level, argument vector).  [res j argss] is the j-th result of the
+   original function.  [hygienic] is the current tree.  The only hypothesis about names is
+   [src_ok ps rs]: the signature is one Go accepts (results all named or all unnamed, the names
+   that can be referred to pairwise distinct among the parameters and among the results) — named,
+   blank and unnamed parameters, names the generator itself uses (f, param_N, innerParam_N),
+   named results and names shared by the two levels of uncurry are all covered.
+   FUEL + k is any sufficient amount of evaluator fuel. *)
 From Coq Require Import String Ascii List.
 From Verif Require Import Base Plumb.Model Plumb.Proofs.
 Import ListNotations.
@@ -19,10 +21,10 @@ Open Scope list_scope.
 Theorem C15_plumb_correct_curry :
   forall (res : nat -> list (list val) -> val) (s : sig) (a1 : val) (rest : list val) (k : nat),
   s_variadic s = false ->
-  guardb (names (rename_blank fixed "param_" (s_params s))) (names (s_results s)) = true ->
+  src_ok (names (s_params s)) (names (s_results s)) = true ->
   2 <= length (s_params s) ->
   length (a1 :: rest) = length (s_params s) ->
-  run_curry res fixed (FUEL + k) s (prim_flat s) (a1 :: rest)
+  run_curry res hygienic (FUEL + k) s (prim_flat s) (a1 :: rest)
   = ROk (prim_results res (length (s_results s)) [a1 :: rest]) [(0, a1 :: rest)].
 Proof. exact plumb_correct_curry. Qed.
 Print Assumptions C15_plumb_correct_curry.
@@ -30,9 +32,9 @@ Print Assumptions C15_plumb_correct_curry.
 Theorem C15_plumb_correct_flip :
   forall (res : nat -> list (list val) -> val) (s : sig) (x1 x2 : val) (xs : list val) (k : nat),
   s_variadic s = false ->
-  guardb (names (rename_blank fixed "param_" (s_params s))) (names (s_results s)) = true ->
+  src_ok (names (s_params s)) (names (s_results s)) = true ->
   length (x1 :: x2 :: xs) = length (s_params s) ->
-  run_flip res fixed (FUEL + k) s (prim_flat s) (x1 :: x2 :: xs)
+  run_flip res hygienic (FUEL + k) s (prim_flat s) (x1 :: x2 :: xs)
   = ROk (prim_results res (length (s_results s)) [x2 :: x1 :: xs]) [(0, x2 :: x1 :: xs)].
 Proof. exact plumb_correct_flip. Qed.
 Print Assumptions C15_plumb_correct_flip.
@@ -40,22 +42,23 @@ Print Assumptions C15_plumb_correct_flip.
 Theorem C15_plumb_correct_apply :
   forall (res : nat -> list (list val) -> val) (s : sig) (vs : list val) (bound : val) (k : nat),
   s_variadic s = false ->
-  guardb (names (rename_blank fixed "param_" (s_params s))) (names (s_results s)) = true ->
+  src_ok (names (s_params s)) (names (s_results s)) = true ->
   length (vs ++ [bound]) = length (s_params s) ->
-  run_apply res fixed (FUEL + k) s (prim_flat s) (vs ++ [bound])
+  run_apply res hygienic (FUEL + k) s (prim_flat s) (vs ++ [bound])
   = ROk (prim_results res (length (s_results s)) [vs ++ [bound]]) [(0, vs ++ [bound])].
 Proof. exact plumb_correct_apply. Qed.
 Print Assumptions C15_plumb_correct_apply.
 
+(* no condition ties the names of the outer level to those of the inner level or of the results,
+   nor restricts the name of the returned function *)
 Theorem C15_plumb_correct_uncurry :
   forall (res : nat -> list (list val) -> val) (c : csig) (vo vi : list val) (k : nat),
   c_variadic c = false ->
-  guardb (names (rename_blank fixed "param_" (c_outer c)) ++
-          names (rename_blank fixed "innerParam_" (c_inner c))) (names (c_results c)) = true ->
-  bindable (c_rname c) = false ->
+  nodupb (filter bindable (names (c_outer c))) = true ->
+  src_ok (names (c_inner c)) (names (c_results c)) = true ->
   length (c_outer c) = 1 ->
   length vo = length (c_outer c) -> length vi = length (c_inner c) ->
-  run_uncurry res fixed (FUEL + k) c (prim_curried c) (vo ++ vi)
+  run_uncurry res hygienic (FUEL + k) c (prim_curried c) (vo ++ vi)
   = ROk (prim_results res (length (c_results c)) [vo; vi]) [(0, vo); (1, vi)].
 Proof. exact plumb_correct_uncurry. Qed.
 Print Assumptions C15_plumb_correct_uncurry.
@@ -69,17 +72,41 @@ Print Assumptions C15_tuple_spec.
 Theorem C15_uncurry_curry_id :
   forall (res : nat -> list (list val) -> val) (s : sig) (a1 : val) (rest : list val) (k : nat),
   s_variadic s = false ->
-  guardb (names (rename_blank fixed "param_" (s_params s))) (names (s_results s)) = true ->
+  src_ok (names (s_params s)) (names (s_results s)) = true ->
   2 <= length (s_params s) ->
   length (a1 :: rest) = length (s_params s) ->
-  run_roundtrip res fixed (FUEL + k) s (prim_flat s) (a1 :: rest)
+  run_roundtrip res hygienic (FUEL + k) s (prim_flat s) (a1 :: rest)
   = ROk (prim_results res (length (s_results s)) [a1 :: rest]) [(0, a1 :: rest)].
 Proof. exact uncurry_curry_id. Qed.
 Print Assumptions C15_uncurry_curry_id.
 
-(* derive/params.go, both versions: types and length kept; no blank (fixed: nor unnamed) parameter
-   remains; pairwise distinct usable names stay pairwise distinct, whatever they look like;
-   nothing changes when there is no blank parameter *)
+(* derive.UnusedName: the loop `for isUsed(name) { name += "_" }` ends on a name that is not taken
+   (within length taken rounds) *)
+Theorem C15_unused_name_fresh :
+  forall (n : name) (taken : list name), ~ In (unused_name n taken) taken.
+Proof. exact unused_name_fresh. Qed.
+Print Assumptions C15_unused_name_fresh.
+
+(* derive/params.go, current tree (RenameClashingIdentifierWith): types and length kept; afterwards
+   every parameter can be referred to and none has a taken name (a result, the other level of
+   uncurry); pairwise distinct usable names stay pairwise distinct, whatever they look like;
+   nothing changes unless a parameter is blank, unnamed or has a taken name *)
+Theorem C15_rename_avoid_spec :
+  forall (v : version) (c : Ascii.ascii) (pre' : string) (taken : list name) (ps : list (name * ty)),
+  v_blank_empty v = true -> c <> "_"%char ->
+  let out := rename_avoid v (String c pre') taken ps in
+  map snd out = map snd ps
+  /\ length out = length ps
+  /\ forallb bindable (names out) = true
+  /\ (forall x, In x (names out) -> ~ In x taken)
+  /\ (NoDup (filter bindable (names ps)) -> NoDup (names out))
+  /\ (needs_rename v taken ps = false -> out = ps).
+Proof. exact rename_avoid_spec. Qed.
+Print Assumptions C15_rename_avoid_spec.
+
+(* derive/params.go before the last fix (each list renamed on its own), both earlier versions:
+   types and length kept; no blank (fixed: nor unnamed) parameter remains; pairwise distinct
+   usable names stay pairwise distinct; nothing changes when there is no blank parameter *)
 Theorem C15_rename_blank_spec :
   forall (v : version) (c : Ascii.ascii) (pre' : string) (ps : list (name * ty)),
   c <> "_"%char ->
@@ -91,18 +118,6 @@ Theorem C15_rename_blank_spec :
   /\ (has_blank v ps = false -> out = ps).
 Proof. exact rename_blank_spec. Qed.
 Print Assumptions C15_rename_blank_spec.
-
-(* every signature Go accepts whose results are unnamed or blank and in which nothing is called f is
-   inside the guard of the four theorems above: named, blank, unnamed parameters and parameters
-   that look like the generator's own param_N are all covered *)
-Theorem C15_guard_from_source :
-  forall (ps : list (name * ty)) (rs : list name),
-  NoDup (filter (nonblank fixed) (names ps)) ->
-  ~ In "f" (names ps) ->
-  names_form rs = true -> filter bindable rs = [] ->
-  guardb (names (rename_blank fixed "param_" ps)) rs = true.
-Proof. exact guard_from_source. Qed.
-Print Assumptions C15_guard_from_source.
 
 (* pinned tree, repaired by repo-patches/C15-fix-unnamed-params.patch *)
 Theorem C15_plumb_unnamed_refuted :
@@ -124,21 +139,50 @@ Theorem C15_plumb_void_refuted :
 Proof. exact plumb_void_refuted. Qed.
 Print Assumptions C15_plumb_void_refuted.
 
-(* open finding C15-param-named-f *)
+(* the old naming (the wrapper's own parameter is always called f), repaired by
+   repo-patches/C15-fix-1-param-named-f.patch: finding C15-param-named-f *)
 Theorem C15_plumb_param_f_refuted :
   run_curry res0 fixed FUEL w_f_first (prim_flat w_f_first) [v1; v2] = RIll
   /\ run_flip res0 fixed FUEL w_f_last (prim_flat w_f_last) [v1; v2] = RIll
   /\ run_apply res0 fixed FUEL w_f_first (prim_flat w_f_first) [v1; v2] = RIll
   /\ run_apply res0 fixed FUEL w_f_last (prim_flat w_f_last) [v1; v2] = RIll
   /\ run_uncurry res0 fixed FUEL w_f_inner (prim_curried w_f_inner) [v1; v2] = RIll
-  /\ run_curry res0 fixed FUEL w_f_result (prim_flat w_f_result) [v1; v2] = RIll.
+  /\ run_curry res0 fixed FUEL w_f_result (prim_flat w_f_result) [v1; v2] = RIll
+  /\ run_curry res0 hygienic FUEL w_f_first (prim_flat w_f_first) [v1; v2] = ROk [VBase 0] [(0, [v1; v2])]
+  /\ run_flip res0 hygienic FUEL w_f_last (prim_flat w_f_last) [v1; v2] = ROk [VBase 0] [(0, [v2; v1])]
+  /\ run_apply res0 hygienic FUEL w_f_last (prim_flat w_f_last) [v1; v2] = ROk [VBase 0] [(0, [v1; v2])]
+  /\ run_uncurry res0 hygienic FUEL w_f_inner (prim_curried w_f_inner) [v1; v2] = ROk [VBase 0] [(0, [v1]); (1, [v2])]
+  /\ run_curry res0 hygienic FUEL w_f_result (prim_flat w_f_result) [v1; v2] = ROk [VBase 0; VBase 1] [(0, [v1; v2])]
+  /\ sig_fname hygienic w_f_first = "f_".
 Proof. exact plumb_param_f_refuted. Qed.
 Print Assumptions C15_plumb_param_f_refuted.
 
-(* open finding C15-uncurry-duplicate-names *)
+(* the old naming (each parameter list renamed on its own), repaired by
+   repo-patches/C15-fix-2-uncurry-duplicate-names.patch: finding C15-uncurry-duplicate-names *)
 Theorem C15_plumb_uncurry_dup_refuted :
   run_uncurry res0 fixed FUEL w_dup_a (prim_curried w_dup_a) [v1; v2] = RIll
   /\ run_uncurry res0 fixed FUEL w_dup_inner (prim_curried w_dup_inner) [v1; v2] = RIll
-  /\ run_uncurry res0 fixed FUEL w_dup_param (prim_curried w_dup_param) [v1; v2] = RIll.
+  /\ run_uncurry res0 fixed FUEL w_dup_param (prim_curried w_dup_param) [v1; v2] = RIll
+  /\ run_uncurry res0 hygienic FUEL w_dup_a (prim_curried w_dup_a) [v1; v2] = ROk [VBase 0] [(0, [v1]); (1, [v2])]
+  /\ run_uncurry res0 hygienic FUEL w_dup_inner (prim_curried w_dup_inner) [v1; v2] = ROk [VBase 0] [(0, [v1]); (1, [v2])]
+  /\ run_uncurry res0 hygienic FUEL w_dup_param (prim_curried w_dup_param) [v1; v2] = ROk [VBase 0] [(0, [v1]); (1, [v2])]
+  /\ outer_inner (add_uncurry hygienic w_dup_a) = Some (["param_0"], ["a"])
+  /\ outer_inner (add_uncurry hygienic w_dup_inner) = Some (["param_0"], ["innerParam_0"])
+  /\ outer_inner (add_uncurry hygienic w_dup_param) = Some (["param_0_"], ["param_0"]).
 Proof. exact plumb_uncurry_dup_refuted. Qed.
 Print Assumptions C15_plumb_uncurry_dup_refuted.
+
+(* the old naming, same patch: a made-up parameter name is the name of a result; the outer parameter
+   of uncurry is the name of an inner result or of the returned function *)
+Theorem C15_plumb_result_clash_refuted :
+  run_curry res0 fixed FUEL w_res_prefix (prim_flat w_res_prefix) [v1; v2] = RIll
+  /\ run_flip res0 fixed FUEL w_res_prefix (prim_flat w_res_prefix) [v1; v2] = RIll
+  /\ run_apply res0 fixed FUEL w_res_prefix (prim_flat w_res_prefix) [v1; v2] = RIll
+  /\ run_uncurry res0 fixed FUEL w_outer_res (prim_curried w_outer_res) [v1; v2] = RIll
+  /\ run_uncurry res0 fixed FUEL w_rname (prim_curried w_rname) [v1; v2] = RIll
+  /\ run_curry res0 hygienic FUEL w_res_prefix (prim_flat w_res_prefix) [v1; v2] = ROk [VBase 0] [(0, [v1; v2])]
+  /\ run_uncurry res0 hygienic FUEL w_outer_res (prim_curried w_outer_res) [v1; v2] = ROk [VBase 0] [(0, [v1]); (1, [v2])]
+  /\ run_uncurry res0 hygienic FUEL w_rname (prim_curried w_rname) [v1; v2] = ROk [VBase 0] [(0, [v1]); (1, [v2])]
+  /\ names (s_params (rename_sig hygienic "param_" w_res_prefix)) = ["param_0_"; "b"].
+Proof. exact plumb_result_clash_refuted. Qed.
+Print Assumptions C15_plumb_result_clash_refuted.
